@@ -1,7 +1,7 @@
 /-
   C18 helper lemmas, part 4:
-    * the code as written (truthiness test, `$` anchors) = the repaired rule when no rank-0 key and no
-      newline-terminated key is present;
+    * the code as it is (truthiness test `not feature_key`, fullmatch) = the fully repaired rule when no rank-0
+      key is present;
     * the reference predicate determines the answer when ranks are pairwise distinct, and does not depend on
       the order of the dictionary: order independence of the extraction.
 -/
@@ -9,113 +9,89 @@ import BioCantor.Proofs.QualSpec
 namespace BioCantor.Proofs.Qual
 open BioCantor BioCantor.Spec.Qual BioCantor.Model.Qual
 
-/-! ### as coded = repaired away from the two defects -/
+/-! ### the truthiness test (`not feature_key`, F-C18a) = the `is None` test away from rank-0 keys
+
+  for every rule with `fullMatch = true` (the code since 5ed9681) -/
 
 def Clean (st : St) : Prop := st.key ≠ some 0 ∧ st.idKey ≠ some 0
 
-def NoZero (e : Str × List Str) : Prop :=
-  nameCls e.1 ≠ some 0 ∧ idCls e.1 ≠ some 0 ∧ e.1.getLast? ≠ some '\n'
+def NoZero (e : Str × List Str) : Prop := nameCls e.1 ≠ some 0 ∧ idCls e.1 ≠ some 0
 
-theorem reMatch_coded {keys : List Str} {q : Str} (h : q.getLast? ≠ some '\n') :
-    reMatchKeys false keys q = reMatchKeys true keys q := by
-  unfold reMatchKeys
-  have : (q.getLast? == some '\n') = false := by
-    cases hb : (q.getLast? == some '\n')
-    · rfl
-    · exact absurd (beq_iff_eq.mp hb) h
-  simp [this]
-
-theorem better_coded {cur : Option Int} {this : Int} (h : cur ≠ some 0) :
-    better Rule.asCoded cur this = better Rule.repaired cur this := by
+theorem better_clean (r : Rule) {cur : Option Int} {this : Int} (h : cur ≠ some 0) :
+    better r cur this = better Rule.repaired cur this := by
   cases cur with
   | none => rfl
   | some v =>
     have hv : v ≠ 0 := fun h0 => h (by rw [h0])
-    simp [better, unset, Rule.asCoded, Rule.repaired, hv]
+    simp [better, unset, Rule.repaired, hv]
 
-theorem step_coded {st : St} {e : Str × List Str} (hc : Clean st) (hz : NoZero e) :
-    step Rule.asCoded st e = step Rule.repaired st e ∧
-    ∀ st', step Rule.repaired st e = .ok st' → Clean st' := by
+theorem stepCls_clean (r : Rule) {st : St} {e : Str × List Str} (hc : Clean st) (hz : NoZero e) :
+    stepCls r st e = stepCls Rule.repaired st e ∧
+    ∀ st', stepCls Rule.repaired st e = .ok st' → Clean st' := by
   obtain ⟨k, vals⟩ := e
-  obtain ⟨hz1, hz2, hz3⟩ := hz
-  have e1 : Rule.asCoded.fullMatch = false := rfl
-  have e2 : Rule.repaired.fullMatch = true := rfl
-  unfold step
-  simp only [e1, e2, reMatch_coded (keys := nameRegexKeys) hz3, reMatch_coded (keys := idRegexKeys) hz3]
-  by_cases hn : reMatchKeys true nameRegexKeys k = true
-  · simp only [hn, if_true]
-    cases hl : Gen.featureNameQualifiers.lookup (upperStr k) with
-    | none => exact ⟨rfl, fun _ h => by cases h⟩
+  obtain ⟨hz1, hz2⟩ := hz
+  unfold stepCls
+  cases hn : nameCls k with
+  | some this =>
+    have hthis : this ≠ 0 := fun h0 => hz1 (by rw [hn, h0])
+    simp only [better_clean r (this := this) hc.1]
+    refine ⟨trivial, fun st' h => ?_⟩
+    by_cases hb : better Rule.repaired st.key this = true
+    · rw [if_pos hb] at h
+      cases vals with
+      | nil => cases h
+      | cons v vs =>
+        simp only [pure, Except.pure, Except.ok.injEq] at h
+        subst h
+        exact ⟨fun h0 => hthis (by simpa using h0), hc.2⟩
+    · rw [if_neg hb] at h
+      simp only [pure, Except.pure, Except.ok.injEq] at h
+      subst h; exact hc
+  | none =>
+    simp only
+    cases hi : idCls k with
     | some this =>
-      have hthis : this ≠ 0 := by
-        intro h0
-        apply hz1
-        show cls nameRegexKeys Gen.featureNameQualifiers k = some 0
-        unfold cls; rw [hn, if_pos rfl, hl, h0]
-      simp only [better_coded (this := this) hc.1]
+      have hthis : this ≠ 0 := fun h0 => hz2 (by rw [hi, h0])
+      simp only [better_clean r (this := this) hc.2]
       refine ⟨trivial, fun st' h => ?_⟩
-      by_cases hb : better Rule.repaired st.key this = true
+      by_cases hb : better Rule.repaired st.idKey this = true
       · rw [if_pos hb] at h
         cases vals with
         | nil => cases h
         | cons v vs =>
           simp only [pure, Except.pure, Except.ok.injEq] at h
           subst h
-          exact ⟨fun h0 => hthis (by simpa using h0), hc.2⟩
+          exact ⟨hc.1, fun h0 => hthis (by simpa using h0)⟩
       · rw [if_neg hb] at h
         simp only [pure, Except.pure, Except.ok.injEq] at h
         subst h; exact hc
-  · simp only [hn, Bool.false_eq_true, if_false]
-    by_cases hi : reMatchKeys true idRegexKeys k = true
-    · simp only [hi, if_true]
-      cases hl : Gen.featureIdQualifiers.lookup (upperStr k) with
-      | none => exact ⟨rfl, fun _ h => by cases h⟩
-      | some this =>
-        have hthis : this ≠ 0 := by
-          intro h0
-          apply hz2
-          show cls idRegexKeys Gen.featureIdQualifiers k = some 0
-          unfold cls; rw [hi, if_pos rfl, hl, h0]
-        simp only [better_coded (this := this) hc.2]
-        refine ⟨trivial, fun st' h => ?_⟩
-        by_cases hb : better Rule.repaired st.idKey this = true
-        · rw [if_pos hb] at h
-          cases vals with
-          | nil => cases h
-          | cons v vs =>
-            simp only [pure, Except.pure, Except.ok.injEq] at h
-            subst h
-            exact ⟨hc.1, fun h0 => hthis (by simpa using h0)⟩
-        · rw [if_neg hb] at h
-          simp only [pure, Except.pure, Except.ok.injEq] at h
-          subst h; exact hc
-    · simp only [hi, Bool.false_eq_true, if_false]
-      refine ⟨trivial, fun st' h => ?_⟩
+    | none =>
+      refine ⟨rfl, fun st' h => ?_⟩
       simp only [pure, Except.pure, Except.ok.injEq] at h
       subst h; exact hc
 
-theorem loop_coded : ∀ (qs : QDict) (st : St), Clean st → (∀ e ∈ qs, NoZero e) →
-    loop Rule.asCoded st qs = loop Rule.repaired st qs
+theorem loop_clean (r : Rule) (hr : r.fullMatch = true) : ∀ (qs : QDict) (st : St), Clean st → (∀ e ∈ qs, NoZero e) →
+    loop r st qs = loop Rule.repaired st qs
   | [], _, _, _ => rfl
   | e :: es, st, hc, hz => by
-    obtain ⟨h1, h2⟩ := step_coded hc (hz e List.mem_cons_self)
-    simp only [loop, h1]
-    cases hs : step Rule.repaired st e with
+    obtain ⟨h1, h2⟩ := stepCls_clean r hc (hz e List.mem_cons_self)
+    simp only [loop, step_eq_stepCls r hr, step_eq_stepCls Rule.repaired rfl, h1]
+    cases hs : stepCls Rule.repaired st e with
     | error err => rfl
     | ok st' =>
       simp only [bind, Except.bind]
-      exact loop_coded es st' (h2 st' hs) (fun e' he' => hz e' (List.mem_cons_of_mem _ he'))
+      exact loop_clean r hr es st' (h2 st' hs) (fun e' he' => hz e' (List.mem_cons_of_mem _ he'))
 
-theorem extract_coded_eq (qs : QDict) (hz : ∀ e ∈ qs, NoZero e) :
-    extractWith Rule.asCoded qs = extractWith Rule.repaired qs := by
+/-- a rule with `fullmatch` agrees with the fully repaired rule on dictionaries without a rank-0 key -/
+theorem extract_rule_eq (r : Rule) (hr : r.fullMatch = true) (qs : QDict) (hz : ∀ e ∈ qs, NoZero e) :
+    extractWith r qs = extractWith Rule.repaired qs := by
   unfold extractWith
-  rw [loop_coded qs St.init ⟨by decide, by decide⟩ hz]
+  rw [loop_clean r hr qs St.init ⟨by decide, by decide⟩ hz]
 
 /-- "no rank-0 key" in the vocabulary of the spec implies the model-side condition -/
 theorem noZero_of_rank {e : Str × List Str}
-    (h1 : rank nameOrder e.1 ≠ some 0) (h2 : rank idOrder e.1 ≠ some 0) (h3 : e.1.getLast? ≠ some '\n') :
-    NoZero e := by
-  refine ⟨fun h => h1 ?_, fun h => h2 ?_, h3⟩
+    (h1 : rank nameOrder e.1 ≠ some 0) (h2 : rank idOrder e.1 ≠ some 0) : NoZero e := by
+  refine ⟨fun h => h1 ?_, fun h => h2 ?_⟩
   · have hs : (rank nameOrder e.1).isSome = true := by
       rw [← cls_isSome nameFamOK]
       have h' : cls nameRegexKeys Gen.featureNameQualifiers e.1 = some 0 := h
